@@ -38,11 +38,14 @@ ENTRIES.update({
             "text": "receive's contract is stated over R ++ data (R = bytes held back): result == msgs(R ++ data), buffer' == residue(R ++ data), identical for the buffered and the direct path. "
                     "lemma_chunk (induction over frames, using prefix-stability of the X.690 header denotation) proves msgs(A ++ B) == msgs(A) ++ msgs(residue(A) ++ B) and residue(A ++ B) == residue(residue(A) ++ B), "
                     "so any chunking returns the same messages in the same order and leaves the same buffer; octet strings are copied out of the view (read_octet_string returns bytes)."},
-    "C05": {"category": "other", "technique": _SESSION_TECH + "; exception containment below the envelope is a trusted contract backed by a bounded corruption sweep", "note": _TB,
-            "text": "Proved: LDAPSession/LDAPClient/LDAPServer.receive and _process_incoming_message raise nothing but ProtocolError (every implicit exception site is an obligation: set.remove, indexing, enum conversion, "
-                    "attribute access on None), a CLOSED session raises without touching its buffers, every error path ends CLOSED with the outstanding set cleared, and the attached response is the encoding of an UnbindRequest "
-                    "(client) / notice of disconnection with PROTOCOL_ERROR (server). Not proved (level 'other'): that the decoders below the envelope raise only ValueError / NotImplementedError / NotEnougData / RecursionError - "
-                    "that contract is trusted and exercised by the bounded sweep (malformed interiors, 1500-deep filters, every single-octet header corruption, every chunking)."},
+    "C05": {"category": "proof", "technique": _SESSION_TECH + "; exception-containment contracts (raises-only + loop progress) on every function of the BER decode tree of _messages / _filter / _controls / _authentication, discharged from the AST",
+            "note": _TB + " Assumed: default PackingOptions (no user-registered custom types); RecursionError is the only resource exception (caught by receive; MemoryError excluded).",
+            "text": "Proved for all byte strings: (1) each of the 34 decode functions below the envelope (8 message kinds, LDAPResult, PartialAttribute, the 11 filter choices and their dispatcher, controls incl. the paged-results value, "
+                    "both credential choices, the content decoder with its PROTOCOL_PACKER dispatch and controls / responseName loop) raises nothing but ValueError (incl. UnicodeDecodeError) / NotImplementedError / NotEnougData - "
+                    "every implicit exception site (indexing, dict lookup, enum conversion, attribute access on None, unpack arity) is an obligation - and every `while reader:` loop consumes at least one TLV per iteration (decreases); "
+                    "(2) unpack_ldap_message turns NotEnougData inside a complete envelope into ValueError; (3) receive and _process_incoming_message of both roles raise nothing but ProtocolError, "
+                    "a CLOSED session raises without touching its buffers, every error path ends CLOSED with the outstanding set cleared, and the attached response equals the encoding of UnbindRequest(0) (client) / "
+                    "notice of disconnection with protocolError (server). Chunking independence is C02. The bounded sweep (malformed interiors, 1500-deep filters, every single-octet header corruption, every chunking) runs the same contracts natively."},
 })
 _TXT_NOTE = ("The parsers are regex + str.split/strip code; z3/cvc5 do not decide their string constraints reliably (DESIGN.md 3.7), so the contract is *evaluated* on a stated bounded-exhaustive "
              "input set and labelled bounded; the regex parts are exact decisions on the automaton of the pattern as parsed by the interpreter that runs the code. Trusted: textbook semantics of the sre opcodes in use; "
